@@ -437,8 +437,11 @@ func (s *Stream) skipValue(depth int64) error {
 				if floatTable[c] {
 					continue
 				} else if c == nul {
+					s.cursor = cursor
 					if s.read() {
-						_, cursor, p = s.stat()
+						// the byte at this position has just arrived: look at it again
+						p = s.bufptr()
+						cursor--
 						continue
 					}
 				}
